@@ -38,7 +38,9 @@ BkHits(e) ==
                     \cup (IF e.info[1] = SUCCESS THEN If(ResidualOK(e.ty, e.qn, e.qres, e.qscale + 64), "ResidualSmall") ELSE {})
                ELSE (IF TernaryEntries(e) /\ e.sig = 0 THEN If(e.info[1] = NUMISSUE, "SingularReportsNumericalIssue") ELSE {}))
     ELSE \* measured families: judged when the shifted matrix is numerically nonsingular (condition number below 1/sqrt(eps))
-         LET wellcond == e.qcond # QNAN /\ e.qcond <= -QEPS12(e.ty) IN
+         \* graded pivot traps (family "trap"): nonsingular by construction (determinant -M or -1 per block) and ill-conditioned on purpose;
+         \* Bunch-Kaufman is backward stable whatever the condition number, so the residual is judged for them as well
+         LET wellcond == e.fam = "trap" \/ (e.qcond # QNAN /\ e.qcond <= -QEPS12(e.ty)) IN
          variants \cup status
          \cup (IF wellcond
                THEN If(e.info[1] = SUCCESS, "NonsingularReportsSuccess")
@@ -120,6 +122,7 @@ TrStep ==
                                  [] e.e = "Qr" -> QrHits(e)
                                  [] e.e = "Eig" -> EigHits(e)
                                  [] e.e \in {"Reset", "EndBk", "EndKernels"} -> {}
+                                 [] e.e = "OutOfRange" -> {Hit("OutOfRange")}
                                  [] OTHER -> {Hit("UnknownRow")})
         /\ cov' = LET c0 == Bump(cov, "rows", 1) IN
                   CASE e.e = "Bk" /\ e.kind = "exact" ->
